@@ -6,7 +6,8 @@
 From Coq Require Import List ZArith NArith Bool Sorting.Permutation.
 From RRSS Require Import Base.Outcome Base.Chars Base.F64 Exec.Val Proofs.OrderLaws Proofs.InterpWf.
 From RRSS Require Import Front.Ast Exec.Env Exec.Interp.
-From RRSS Require Import Proofs.FuelMono.
+From RRSS Require Import Proofs.FuelMono Proofs.InterpProfile Proofs.ParseProfile.
+From RRSS Require Import Base.Chars Front.Lexer Front.Parser.
 Import ListNotations.
 
 (** printing: the rendered text is the same for every arrangement of the dictionary ... *)
@@ -74,6 +75,21 @@ Theorem C10_outcome_unique :
   exec_program prof f1 p c = exec_program prof f2 p c.
 Proof. exact outcome_unique. Qed.
 
+(** nor is the build: a debug build and a release build of the interpreter compute the same run — every byte written,
+    the outcome, the final variables (the debug-only assertions are the only difference between the two, and none
+    of them can fail) *)
+Theorem C10_build_profile_irrelevant :
+  forall fuel p c, exec_program Debug fuel p c = exec_program Release fuel p c.
+Proof. exact profile_irrelevant. Qed.
+
+(** ... and the front end: on every source shorter than 4 GiB both builds produce the same tokens and the same tree or
+    the same syntax error *)
+Theorem C10_front_end_profile_irrelevant :
+  forall src, (byte_len src < u32_limit)%N -> lex Debug src = lex Release src /\ parse Debug src = parse Release src.
+Proof. exact (fun src H => conj (lex_profile_irrelevant src H) (parse_profile_irrelevant src H)). Qed.
+
 Print Assumptions C10_join_order_independent.
 Print Assumptions C10_runtime_array_order_independent.
 Print Assumptions C10_outcome_unique.
+Print Assumptions C10_build_profile_irrelevant.
+Print Assumptions C10_front_end_profile_irrelevant.
